@@ -84,6 +84,9 @@ fn garbage_header(rng: &mut Rng) -> Vec<u8> {
 
 pub fn generate(rng: &mut Rng, tier: Tier, emit: &mut dyn FnMut(String)) {
     let quick = tier == Tier::Quick;
+    // 6. the pool keeps working through the remaining connections (first: real-time cases, kept apart from the
+    // multi-thread race cases at the end so that they land in different chunks of the runner)
+    crate::c10_pool::generate(rng, quick, emit);
     // 1. frame streams cut at every offset
     for _ in 0..(if quick { 600 } else { 8000 }) {
         let frames = random_frames(rng);
@@ -500,6 +503,7 @@ pub fn run(case: &str, ctx: &mut Ctx) -> String {
         Some("conn") if (w.len() == 2 || w.len() == 3) && (w[1] == "0" || w[1] == "1") => {
             run_conn(w[1] == "1", None, &ops(w.get(2)), ctx)
         }
+        Some("pool") if w.len() == 3 => crate::c10_pool::run(w[1], w[2], ctx),
         Some("race") if w.len() == 3 => match w[2].parse::<u64>() {
             Ok(seed) => run_race(w[1], seed, ctx),
             Err(_) => "bad-case".to_owned(),
